@@ -337,7 +337,8 @@ def document_single_file(file, root, settings: Settings):
         # Path to file relative to input_path
         header_name = os.path.relpath(file, root)
     else:
-        header_name = file
+        # A lone input file is named by its base name, not by the path it was given as
+        header_name = os.path.basename(file)
 
     if prefix is not None:
         # If current file dir is same as root dir, replace "." with prefix
